@@ -443,6 +443,8 @@ impl Value {
     pub fn separator(&self) -> ListSeparator {
         match self {
             Value::List(_, list_separator, _) => *list_separator,
+            // an empty map is an empty list, whose separator is undecided
+            Value::Map(map) if map.is_empty() => ListSeparator::Undecided,
             Value::Map(..) | Value::ArgList(..) => ListSeparator::Comma,
             _ => ListSeparator::Space,
         }
